@@ -13,20 +13,30 @@ EXTENDS Hypergeom, TLC, Json, FiniteSets, FiniteSetsExt, SequencesExt
 CONSTANTS Ns,        \* population sizes explored exhaustively
           BigNs,     \* population sizes explored on selected profiles only
           BigSamples, \* sample sizes used with BigNs
-          HugeNs      \* population sizes (up to 9999) explored on the two extreme tails only, sample = N / 2
+          HugeNs,     \* population sizes (up to 9999) explored on the two extreme tails only, sample = N / 2
+          WithSpecials \* BOOLEAN: the selected tuples of Specials
 
 VARIABLE job         \* <<N, n, K>>; K = 0: not yet split (no work); N = 0: root
 
 Min2(a, b) == IF a < b THEN a ELSE b
 Max2(a, b) == IF a > b THEN a ELSE b
 
+(* selected tuples: annotation AND sample well above 64 terms with k far above the mean but in the lower half of the   *)
+(* support (a tiny p-value with a long upper tail); populations above 13,500 terms with a handful of annotated terms  *)
+Specials == { [N |-> 600, n |-> 140, K |-> 140, ks |-> {60, 62}],
+              [N |-> 14000, n |-> 10, K |-> 6, ks |-> {1, 2}],
+              [N |-> 20000, n |-> 8, K |-> 5, ks |-> {1, 3}] }
+SpecialNs == {s.N : s \in Specials}
+
 Jobs == {<<N, n>> \in Ns \X (1..12) : n <= N} \cup {j \in BigNs \X BigSamples : j[2] <= j[1]} \cup {<<N, N \div 2>> : N \in HugeNs}
+        \cup (IF WithSpecials THEN {<<s.N, s.n>> : s \in Specials} ELSE {})
 
 (* profiles: all (K, k) for small N; a spread of K and the extreme / middle k for large N *)
-Ks(N) == IF N \in Ns THEN 1..N ELSE IF N \in HugeNs THEN {N \div 2, N \div 8} ELSE {1, N \div 8, N \div 2, N - 1}
+Ks(N) == IF N \in SpecialNs THEN {s.K : s \in {q \in Specials : q.N = N}} ELSE IF N \in Ns THEN 1..N ELSE IF N \in HugeNs THEN {N \div 2, N \div 8} ELSE {1, N \div 8, N \div 2, N - 1}
 ks(N, K, n) ==
   LET lo == Max2(0, n + K - N) hi == Min2(K, n) IN
-  IF N \in Ns THEN lo..hi
+  IF N \in SpecialNs THEN (CHOOSE q \in Specials : q.N = N).ks
+  ELSE IF N \in Ns THEN lo..hi
   ELSE IF N \in HugeNs THEN {lo, lo + 1, hi}
   ELSE {lo, hi, Min2(hi, Max2(lo, (n * K) \div N + 1)), Min2(hi, Max2(lo, (n * K) \div N + 4))}
 
